@@ -87,7 +87,8 @@ CLAIMS["C10"] = dict(
     cat="proof",
     text="Write-back kernel of nudging (NudgingShiftSegment::updatePositionsFromSolver, the only place nudging writes a route) under contract: a fixed segment writes "
          "nothing (empty frame, so first/last points stay put); the written position is the solver position clamped into [minSpaceLimit,maxSpaceLimit]; the loop body "
-         "writes exactly one coordinate of one indexed point and keeps the route's size (unbounded, one arbitrary index); whole function bounded (<= 4 indexes). "
+         "writes exactly one coordinate of one indexed point and keeps the route's size (unbounded, one arbitrary index); whole function bounded (<= 4 indexes); "
+         "bounded (<= 4 segments): a nudging region is closed under overlapsWith. "
          "Which segments are fixed, ordering, channel computation, grouping and the resulting separation are undecided residue.",
     note=BASE_TB + "Assumed read-only contract for ConnRef::displayRoute(); Point::operator[]'s `?:` reference return rewritten to if/return (cbmc crash work-around); "
          "body+bounded-loop split for the write loop (DESIGN 2.9).",
@@ -99,7 +100,8 @@ CLAIMS["C17"] = dict(
     text="BOUNDED stand-in only, not a proof: for every multigraph with at most 3 nodes and 3 edges (self-loops, parallel edges, integer or unit weights) the real "
          "floyd_warshall template equals an independent Bellman-Ford oracle, with zero diagonal, symmetry and the exact sentinel for unreachable pairs. dijkstra/johnsons "
          "(pairing heap) could not be brought within CBMC's reach and are not covered. Of the layout distance matrix only the two loop bodies of computePathLengths are under "
-         "contract (unbounded for one index / pair: non-positive lengths become 1; reachable pairs scaled by idealLength and marked 2, unreachable keep the sentinel and 0).",
+         "contract (unbounded for one index / pair: non-positive lengths become 1; reachable pairs scaled by idealLength and marked 2, unreachable keep the sentinel and 0), plus a bounded tail job: after the "
+         "post-processing D is not written again.",
     note=BASE_TB + "Template instantiated at an integer type (machine arithmetic treated as mathematical); bound stated per job; evidence level 'other' with the bounded jobs "
          "listed and obligations/discharged left at zero.",
     tech="CBMC bounded model checking of the verbatim template slice (concrete loop bounds, unwinding complete) against a Bellman-Ford oracle; native exhaustive replay",
@@ -112,7 +114,8 @@ CLAIMS["C07"] = dict(
          "(same two variables, gap bit for bit, equality where the kind demands it, creator back-pointer set), exactly one per sub-constraint, none skipped, only in the "
          "constraint's dimension, invalid indices reported; guide-line variables are appended with their index as id. (2) project() constructs the solver over the lists it was "
          "given, reads every coordinate back after solve(), each equal to that variable's finalPosition. (3) checkUnsatisfiable reports every flagged constraint as itself with "
-         "its maker. With C01 (normal return => every unflagged constraint satisfied) these give: after ONE projection every generated user constraint holds or is reported. "
+         "its maker; the same two links on the majorization path (GradientProjection::runSolver case Off, destroyVPSC). (4) makeFeasible's scan after each tentative "
+         "alternative: a flag on ANY constraint of the valid set is cleared and vetoes the alternative (any size, loop contract; plus a bounded job that survives rewrites). With C01 (normal return => every unflagged constraint satisfied) these give: after ONE projection every generated user constraint holds or is reported. "
          "NOT decided: that run()/makeFeasible() END in such a projection (the descent step after project() in applyForcesAndConstraints, makeFeasible's rollback), the 1e-4 "
          "tolerance, rectangle sizes, NaN/inf freedom, ConstrainedMajorizationLayout, PageBoundary/OrthogonalEdge constraints, virtual dispatch from setupVarsAndConstraints.",
     note=BASE_TB + "Level 'other' because the property itself is not proved, only these links; loop bodies are proved for one arbitrary element and the loops for any length with the "
@@ -121,12 +124,25 @@ CLAIMS["C07"] = dict(
          "contracts (other kinds, project, checkUnsatisfiable); native replay on the real classes",
     ref="5/C07")
 
+CLAIMS["C08"] = dict(
+    cat="other",
+    text="PARTIAL: only two translation links of C08 are decided, by contract proofs; the statement itself (no overlap / containment in the result) is not. "
+         "(1) ClusterContainmentConstraints::generateSeparationConstraints: each member entry yields, in its own dimension only, the inequality that keeps the member at least its "
+         "offset inside the named cluster boundary variable, creator set, every entry visited (loop body + loop shell, any number of entries). "
+         "(2) NonOverlapConstraints::generateSeparationConstraints for one pair of plain shapes: a pair overlapping in the other axis by more than 0.0005 gets exactly one separation "
+         "in this axis, the shape with the smaller centre first, gap = sum of the two half sizes; otherwise nothing. "
+         "NOT decided: pairs involving clusters, the pair list / exemptions, the constructor's offsets, makeFeasible's four alternatives, the descent loop (C07 residue).",
+    note=BASE_TB + "Level 'other' because the property itself is not proved; the pair job is a plain harness (goto-instrument --dfcc ran out of memory on it) over three "
+         "variables/rectangles with symbolic contents, Rectangle::getCentreD/overlapD as uninterpreted functions of the rectangle's coordinates.",
+    tech="CBMC code contracts (containment: loop-body fragment + loop shell with loop contract) and a plain CBMC harness (non-overlap pair body) on verbatim slices of "
+         "libcola/cc_clustercontainmentconstraints.cpp and cc_nonoverlapconstraints.cpp; native replay on the real classes",
+    ref="5/C08")
+
 NA = {
     "C02": "Optimality of solve() is a KKT/convergence statement about an iterative active-set method over heap-allocated block trees in IEEE arithmetic; per-function facts need FP multiply/divide reasoning no installed back end finishes (DESIGN 3) and would not imply agreement with a QP oracle.",
     "C03": "'No route segment crosses an obstacle' is emergent from visibility-graph construction (std::list/std::set sweeps), A*, nudging and hyperedge improvement; only the leaf predicates are reachable and they are claimed under C16.",
     "C04": "Euclidean optimality needs completeness of the rotational sweep and soundness of region pruning for all paths - a global argument in real geometry that no per-function CBMC contract expresses without mirroring the code.",
     "C06": "A statement over histories of transactions compared with a fresh router; would need the whole router state as ghost state (std::list/set/map of heap objects), outside CBMC contracts' reach.",
-    "C08": "Non-overlap after iterative descent with an activation threshold and cluster recursion over std::list/set; no per-function statement implies it.",
     "C11": "The oracle for 'ends at the pin' is ShapeConnectionPin::position() itself; the property is about routing choosing and recording pins over histories of moves (std::set/list state).",
     "C12": "Tree-ness and terminal preservation are invariants of a pointer graph rewritten by recursive routines; needs inductive heap predicates CBMC contracts do not have.",
     "C13": "Topology preservation over solve() iterations is a whole-history geometric invariant on linked structures; its numeric kernel is a bilinear rational identity (multiply+divide), out of solver reach (DESIGN 3).",
